@@ -27,8 +27,11 @@ def gen_cases(seed, tier, n):
             b = copy.deepcopy(a)
         else:
             b = tracegen.gen_case(seed, 2 * i + 1, tracegen.PROFILES["diff"])
-        a["ranks2"] = b["ranks"]
         a["params"] = {"pseed": rng.randint(0, 10 ** 9), "self": i % 6 == 5}
+        if i % 8 == 6:
+            fw.set_quarter_us(a)           # quarter-microsecond resolution (framework.resolution), both traces
+            fw.set_quarter_us(b)
+        a["ranks2"] = b["ranks"]
         out.append(a)
     return out
 
@@ -65,12 +68,18 @@ def _draw(rng, ranks, steps):
 
 
 def run_impl(case, d):
+    with fw.resolution(case):
+        return _run_impl(case, d)
+
+
+def _run_impl(case, d):
     from hta.common.trace import Trace
     from hta.trace_diff import LabeledTrace, TraceDiff, DeviceType
     rng = random.Random(case["params"]["pseed"])
     d1, d2 = os.path.join(d, "c"), os.path.join(d, "t")
-    p1 = tracegen.write_case(case, d1)
-    p2 = tracegen.write_case({"ranks": case["ranks2"]}, d2)
+    ksc = fw.time_scale(case)
+    p1 = tracegen.write_case(fw.quartered(case) if ksc != 1 else case, d1)
+    p2 = tracegen.write_case(fw.quartered({"ranks": case["ranks2"]}) if ksc != 1 else {"ranks": case["ranks2"]}, d2)
     s1, s2 = _steps(case["ranks"]), _steps({int(k): v for k, v in case["ranks2"].items()})
     if not s1 or not s2:
         return {"skip": True}
@@ -79,8 +88,8 @@ def run_impl(case, d):
     lc = LabeledTrace("same" if same_label else "ctl", t=Trace(trace_files=dict(p1), trace_dir=d1))
     lt = LabeledTrace("same" if same_label else "tst", t=Trace(trace_files=dict(p2), trace_dir=d2))
     symc, symt = lc.t.symbol_table.get_sym_table(), lt.t.symbol_table.get_sym_table()
-    fc = {r: fw.dump_frame(lc.t.traces[r], symc) for r in sorted(lc.t.traces)}
-    ft = {r: fw.dump_frame(lt.t.traces[r], symt) for r in sorted(lt.t.traces)}
+    fc = {r: fw.dump_frame_res(case, lc.t.traces[r], symc) for r in sorted(lc.t.traces)}
+    ft = {r: fw.dump_frame_res(case, lt.t.traces[r], symt) for r in sorted(lt.t.traces)}
     crank, citer = _draw(rng, case["ranks"], s1)
     if case["params"]["self"]:
         trank, titer = crank, citer
@@ -90,23 +99,33 @@ def run_impl(case, d):
     short = rng.random() < 0.5
     params = {"crank": crank, "citer": citer, "trank": trank, "titer": titer, "dev": dev, "short": short, "same_label": same_label}
     out = {}
+    # the two public calls in either order: ops_diff as the FIRST call on a fresh pair in half of the cases
+    ops_first = rng.random() < 0.5
+    params["ops_first"] = ops_first
+    if ops_first:
+        try:
+            od = TraceDiff.ops_diff(lc, lt, crank, trank, citer, titer, DeviceType[dev])
+            out["ops_diff"] = {k: sorted(map(str, v)) for k, v in od.items()}
+        except Exception as e:
+            out["error2"] = "ops_diff: " + type(e).__name__ + ": " + str(e)[:200]
     try:
         df = TraceDiff.compare_traces(lc, lt, crank, trank, citer, titer, DeviceType[dev], short)
         rows = {}
         cl, tl = lc.label, lt.label
         for k, rec in zip(df.index, df.to_dict("records")):
-            rows[str(k)] = [fw.as_int(rec[f"{cl}_counts"]), fw.as_int(rec[f"{tl}_counts"]), fw.as_int(rec[f"{cl}_total_duration"]),
-                            fw.as_int(rec[f"{tl}_total_duration"]), fw.as_int(rec["diff_counts"]), fw.as_int(rec["diff_duration"]),
+            rows[str(k)] = [fw.as_int(rec[f"{cl}_counts"]), fw.as_int(rec[f"{tl}_counts"]), fw.as_int(rec[f"{cl}_total_duration"] * ksc),
+                            fw.as_int(rec[f"{tl}_total_duration"] * ksc), fw.as_int(rec["diff_counts"]), fw.as_int(rec["diff_duration"] * ksc),
                             {"+": 1, "-": -1, "=": 0}[rec["counts_change_categories"]]]
         out["rows"] = rows
         out["dup_index"] = len(set(df.index)) != len(df.index)
     except Exception as e:
         out["error"] = "compare_traces: " + type(e).__name__ + ": " + str(e)[:200]
-    try:
-        od = TraceDiff.ops_diff(lc, lt, crank, trank, citer, titer, DeviceType[dev])
-        out["ops_diff"] = {k: sorted(map(str, v)) for k, v in od.items()}
-    except Exception as e:
-        out["error2"] = "ops_diff: " + type(e).__name__ + ": " + str(e)[:200]
+    if not ops_first:
+        try:
+            od = TraceDiff.ops_diff(lc, lt, crank, trank, citer, titer, DeviceType[dev])
+            out["ops_diff"] = {k: sorted(map(str, v)) for k, v in od.items()}
+        except Exception as e:
+            out["error2"] = "ops_diff: " + type(e).__name__ + ": " + str(e)[:200]
     return {"fc": fc, "ft": ft, "params": params, "steps": [s1, s2], "out": out}
 
 
